@@ -13,3 +13,13 @@ func (s *Serf) VerifStateSample() int {
 	s.stateLock.Unlock()
 	return v
 }
+
+// VerifStateRaw reads the state field without the lock, and probes the join lock (conformance only).
+func (s *Serf) VerifStateRaw() (state int, joinLocked bool) {
+	if s.joinLock.TryLock() {
+		s.joinLock.Unlock()
+	} else {
+		joinLocked = true
+	}
+	return int(s.state), joinLocked
+}
